@@ -57,9 +57,15 @@ Lemma effective_rejects f c :
   let lookup := or_else (c_lookup c) (f_lookup f) in
   (or_opt (c_commodity c) (f_commodity f) = None -> lookup <> 0%N -> exists x, effective f c = Err x)
   /\ (lookup <> 3%N -> c_before c <> None -> exists x, effective f c = Err x)
-  /\ (lookup = 3%N -> c_before c = None -> exists x, effective f c = Err x).
+  /\ (lookup = 3%N -> c_before c = None -> exists x, effective f c = Err x)
+  /\ (or_else (c_strict c) (f_strict f) = true -> In 0%N (or_else (c_exports c) (f_exports f)) ->
+      f_eq_declared f = false -> exists x, effective f c = Err x).
 Proof.
-  cbv zeta. unfold effective. repeat split.
+  cbv zeta. unfold effective.
+  destruct (or_else (c_strict c) (f_strict f) && existsb (N.eqb 0) (or_else (c_exports c) (f_exports f))
+            && negb (f_eq_declared f)) eqn:Eq.
+  { repeat split; intros; eexists; reflexivity. }
+  repeat split.
   - intros Hc Hl. rewrite Hc. apply N.eqb_neq in Hl. rewrite Hl. cbn. eexists; reflexivity.
   - intros Hl Hb. apply N.eqb_neq in Hl. rewrite Hl.
     destruct (c_before c) eqn:Eb; [|congruence].
@@ -67,10 +73,14 @@ Proof.
               && negb (N.eqb (or_else (c_lookup c) (f_lookup f)) 0)); eexists; cbn; reflexivity.
   - intros Hl Hb. rewrite Hl, Hb. cbn.
     destruct (or_opt (c_commodity c) (f_commodity f)); eexists; cbn; reflexivity.
+  - intros Hs Hin Hd. exfalso. rewrite Hs, Hd in Eq. cbn in Eq.
+    assert (existsb (N.eqb 0) (or_else (c_exports c) (f_exports f)) = true) as He.
+    { apply existsb_exists. exists 0%N. split; [exact Hin|reflexivity]. }
+    rewrite He in Eq. discriminate.
 Qed.
 
 Lemma config_example :
-  let f := mkFile false false [0%N] [] (Some [[97%N]]) (Some [[98%N]]) None None None None 0%N None 2%N in
+  let f := mkFile false false [0%N] [] (Some [[97%N]]) (Some [[98%N]]) None None None None 0%N None 2%N false in
   let c := mkCli (Some true) None None None (Some [[]; [99%N]]) None None None None None in
   option_map (fun e => (e_strict e, e_ras_bal e, e_ras_reg e))
              (match effective f c with Ok e => Some e | Err _ => None end)
